@@ -485,7 +485,7 @@ struct PrtStream : Family {
 		bool many = r.chance(1, 25);
 		if (many) npal = r.range(1, 16);
 		w.set("seed", hex64(r.next())).set("npal", npal).set("nimg", npal ? (many ? r.range(17, 60) : r.below(13)) : 0).set("nanim", many ? r.range(17, 30) : r.below(thorough ? 10 : 7)).set("canonical", r.chance(3, 4) ? 1 : 0);
-		if (r.chance(1, thorough ? 60 : 150)) { if (r.chance(1, 2)) w.set("hugeimg", r.range(52000, 70000)); else w.set("hugeuc", r.range(65000, 80000)); }
+		if (r.chance(1, thorough ? 60 : 150)) { if (r.chance(1, 2)) w.set("hugeimg", r.range(52000, 70000)); else w.set("hugeuc", r.range(65000, 80000)); coarsenFaultsForBigWorld(p); } // a megabyte of PRT: short transfers not below 64 bytes (per-call I/O budget)
 		p.world.push_back(w);
 		static const char* BAD[] = {"palidx", "scanline", "layers", "layers2", "layers256", "cancel", "palidxmid"};
 		size_t n = static_cast<size_t>(r.below(4));
